@@ -16,8 +16,11 @@ package main
 import (
 	"fmt"
 	"net"
+	"os"
 	"regexp"
 	"strings"
+	"sync"
+	"time"
 
 	"github.com/bluenviron/mediamtx/internal/auth"
 	"github.com/bluenviron/mediamtx/internal/conf"
@@ -117,7 +120,7 @@ func queryEligible(ap actProto, allowedInHTTP bool) int {
 
 // placement of credentials in a request.
 type placement struct {
-	name                    string
+	name                     string
 	user, pass, token, query string
 	// what the query holds, for the reference: values of the 'token' and 'jwt' keys (nil = key absent),
 	// and whether the query is outside the clearly specified cases (duplicate key, unparsable pair).
@@ -156,6 +159,18 @@ func effectiveTokens(p placement, ap actProto, allowedInHTTP bool) []string {
 	return fromQuery
 }
 
+// histogram of evaluated cases by expectation class (evidence that every class is really exercised)
+var (
+	histMu sync.Mutex
+	hist   = map[string]int{}
+)
+
+func count(k string) {
+	histMu.Lock()
+	hist[k]++
+	histMu.Unlock()
+}
+
 func contains(set []string, s string) bool {
 	for _, x := range set {
 		if x == s {
@@ -184,9 +199,12 @@ func main() {
 		"jwt C: JWKS server failure modes and the key-rotation history with RefreshJWTJWKS; " +
 		"distinct = (part, class of the input along every dimension that the statement mentions, decision)"
 
+	t0 := time.Now()
 	runHTTP(r)
+	fmt.Fprintf(os.Stderr, "[c02] http part %.1fs\n", time.Since(t0).Seconds())
 	runJWT(r)
 
+	r.Set("case_histogram", hist)
 	r.Exhaustive = true
 	r.Assumptions = []string{
 		"the auth server and the JWKS server are in-process HTTP servers on loopback whose answers are enumerated; no TLS / fingerprint pinning (C41)",
@@ -197,7 +215,3 @@ func main() {
 	}
 	r.Finish()
 }
-
-func short(s string) string { return vcommon.Short(s, 40) }
-
-var _ = fmt.Sprintf
